@@ -73,6 +73,8 @@ type Sched struct {
 	cur         *mthread
 	Trace       []string
 	Deadlock    bool
+	Panics      []string    // panics of modelled threads
+	foreign     interface{} // an explorer sentinel that surfaced inside a thread
 	Steps       int
 	MaxSteps    int
 	Horizon     bool
@@ -111,6 +113,16 @@ func (s *Sched) Go(name string, fn func()) {
 	go func() {
 		<-t.resume
 		defer func() {
+			// a panic of the code under test inside a thread (e.g. close of a closed channel) ends that thread; it is
+			// recorded, the other threads go on (in a real program it would end the process)
+			if r := recover(); r != nil {
+				switch r.(type) {
+				case abortNotMine, harnessError, oracleFailure:
+					s.foreign = r // re-thrown by Run on the explorer's goroutine
+				default:
+					s.Panics = append(s.Panics, fmt.Sprintf("thread %s: %v", name, r))
+				}
+			}
 			t.done = true
 			t.pending = nil
 			s.yield <- struct{}{}
